@@ -9,7 +9,7 @@ wt = tempfile.mkdtemp(prefix='wt_confirm_', dir='/tmp')
 os.rmdir(wt)
 subprocess.run(['git', '-C', '/repo', 'worktree', 'add', '-q', '--detach', wt, 'HEAD'], check=True)
 try:
-    for d in sorted(glob.glob(os.path.join(V, 'seeded', '*'))):
+    for d in sorted(x for x in glob.glob(os.path.join(V, 'seeded', '*')) if os.path.isdir(x)):
         name = os.path.basename(d)
         if sel and not any(s in name for s in sel):
             continue
